@@ -259,7 +259,7 @@ pub trait JitterOps {
     fn set_cap(&self, cap: u64);
 }
 
-pub trait DynGen: Send {
+pub trait DynGen {
     fn kind(&self) -> Kind;
     fn next_u32(&mut self) -> u32;
     fn next_u64(&mut self) -> u64;
@@ -601,7 +601,7 @@ impl CoreKind {
     }
 }
 
-pub trait DynCore: Send {
+pub trait DynCore {
     fn kind(&self) -> CoreKind;
     /// one `generate()` into a fresh default Results buffer; returns the block as u64 words
     fn generate(&mut self) -> Vec<u64>;
